@@ -120,12 +120,13 @@ def build(case, with_slicers=True):
     t = t.aggregate(**kw) if i == 0 else t.add_aggregate(**kw)
   if with_slicers:
     for s in case['slicers']:
+      rkw = {} if s.get('replace') is None else {'replace_mask_false_with': s['replace']}
       if s['kind'] == 'feature':
-        t = t.add_slice(s['features'][0] if len(s['features']) == 1 and s.get('single') else tuple(s['features']))
+        t = t.add_slice(s['features'][0] if len(s['features']) == 1 and s.get('single') else tuple(s['features']), **rkw)
       elif s['kind'] == 'fan':
-        t = t.add_slice(s['features'][0], slice_name=s['name'], slice_fn=fan)
+        t = t.add_slice(s['features'][0], slice_name=s['name'], slice_fn=fan, **rkw)
       elif s['kind'] == 'within':
-        t = t.add_slice({s['features'][0]: tuple(s['allowed'])}, slice_name=s['name'])
+        t = t.add_slice({s['features'][0]: tuple(s['allowed'])}, slice_name=s['name'], **rkw)
       elif s['kind'] == 'mask':
         kw = {}
         if s['replace'] is not None:
@@ -163,6 +164,14 @@ def place(a, value, slice_key=None):
   if slice_key is None:
     return vals
   return {(k, slice_key[0], slice_key[1]): v for k, v in vals.items()}
+
+
+def _slice_keys(s, r):
+  if s['kind'] == 'feature':
+    return [(tuple(s['features']), tuple(r[f] for f in s['features']))]
+  if s['kind'] == 'fan':
+    return [((s['name'],), (v,)) for v in dict.fromkeys(fan(r[s['features'][0]]))]
+  return [((s['name'],), (r[s['features'][0]],))] if r[s['features'][0]] in s['allowed'] else []
 
 
 def reference(case):
@@ -206,6 +215,23 @@ def reference(case):
                   r[c] = [v if pred(m) else s['replace'] for v, m in zip(vals, src)]
               masked_rows.append(r)
           want.update(place(a, agg_value(a, masked_rows), ((s['name'],), (name,))))
+        continue
+      if s.get('replace') is not None:
+        # replace instead of filter: in every batch where the slice value occurs, *all* rows of the batch take part, the
+        # non-members with every input replaced by the given value
+        per_slice = collections.OrderedDict()
+        for b in case['batches']:
+          n = len(next(iter(b.values())))
+          brow = [{k: v[i] for k, v in b.items()} for i in range(n)]
+          member = collections.OrderedDict()
+          for i, r in enumerate(brow):
+            for key in _slice_keys(s, r):
+              member.setdefault(key, set()).add(i)
+          for key, idx in member.items():
+            for i, r in enumerate(brow):
+              per_slice.setdefault(key, []).append(r if i in idx else {k: s['replace'] for k in r})
+        for key, members in per_slice.items():
+          want.update(place(a, agg_value(a, members), key))
         continue
       for r in rows:
         if s['kind'] == 'feature':
@@ -344,25 +370,31 @@ def strat(tier):
     if family == 'rows':
       kinds = draw(st.lists(st.sampled_from(['feature1', 'feature2', 'cross', 'fan', 'within']), max_size=3, unique=True))
       for k in kinds:
+        rep = draw(st.sampled_from([None, None, None, 0, 7]))
         if k == 'feature1':
-          slicers.append({'kind': 'feature', 'features': ['f1'], 'single': draw(st.booleans())})
+          slicers.append({'kind': 'feature', 'features': ['f1'], 'single': draw(st.booleans()), 'replace': rep})
         elif k == 'feature2':
-          slicers.append({'kind': 'feature', 'features': ['f2'], 'single': draw(st.booleans())})
+          slicers.append({'kind': 'feature', 'features': ['f2'], 'single': draw(st.booleans()), 'replace': rep})
         elif k == 'cross':
-          slicers.append({'kind': 'feature', 'features': ['f1', 'f2']})
+          slicers.append({'kind': 'feature', 'features': ['f1', 'f2'], 'replace': rep})
         elif k == 'fan':
-          slicers.append({'kind': 'fan', 'features': ['v'], 'name': 'fan'})
+          slicers.append({'kind': 'fan', 'features': ['v'], 'name': 'fan', 'replace': rep})
         else:
-          slicers.append({'kind': 'within', 'features': ['f1'], 'name': 'within',
+          slicers.append({'kind': 'within', 'features': ['f1'], 'name': 'within', 'replace': rep,
                           'allowed': draw(st.lists(st.sampled_from(['a', 'b', 'c', 'zz']), min_size=1, max_size=3, unique=True))})
+      if any(sl.get('replace') is not None for sl in slicers):
+        for a in aggs:
+          if a['kind'] == 'counter':
+            a['disable_slicing'] = True      # replacing entries of a string column by a number changes its dtype
     elif draw(st.integers(0, 5)) > 0:
       nested = [a for a in aggs if a['kind'] == 'nested' and not a.get('disable_slicing')]
       two = all(len(a['in']) == 2 for a in nested)
       per_input = two and draw(st.booleans())
-      slicers.append({'kind': 'mask', 'features': ['r1', 'r2'] if per_input else ['r1'], 'name': 'mask',
-                      'masks': draw(st.lists(st.sampled_from(['even', 'big', 'all']), min_size=1, max_size=3, unique=True)),
-                      'per_input': per_input, 'only_if_any': draw(st.booleans()),
-                      'replace': draw(st.sampled_from([None, None, 0, 7]))})
+      for name in ['mask', 'mask2'][:draw(st.sampled_from([1, 1, 2]))]:
+        slicers.append({'kind': 'mask', 'features': ['r1', 'r2'] if per_input else ['r1'], 'name': name,
+                        'masks': draw(st.lists(st.sampled_from(['even', 'big', 'all']), min_size=1, max_size=3, unique=True)),
+                        'per_input': per_input, 'only_if_any': draw(st.booleans()),
+                        'replace': draw(st.sampled_from([None, None, 0, 7]))})
     entry = draw(st.sampled_from(['call_iterator', 'iterate', 'aggregate_mode', 'state_api', 'single_batch']))
     if entry == 'single_batch' and len(batches) != 1:
       batches = batches[:1] or batches
